@@ -214,3 +214,133 @@ def constant_hazards():
         for t in ("i32", "u8", "i8", "u64", "i128"):
             out.append(pre + "const N: %s = %s;\nfn main() -> %s\n{\n\treturn: N\n}\n" % (t, e.replace("|:S|", "8"), t))
     return out
+
+
+# --- one fault in every expression context -------------------------------------------------------------------------
+
+FAULTS_I32 = [
+    ("undefined-variable", "nowhere_"),
+    ("undefined-function", "nofn_(1)"),
+    ("too-many-arguments", "one(1, 2)"),
+    ("too-few-arguments", "one()"),
+    ("missing-member", "st.nomember_"),
+    ("member-of-integer", "n.a"),
+    ("index-of-integer", "n[0]"),
+    ("index-of-undefined", "nowhere_[0]"),
+    ("bool-plus-int", "(true + 1)"),
+    ("mixed-widths", "(1u8 + n)"),
+    ("void-call-as-value", "nothing()"),
+    ("length-of-integer", "|n|"),
+    ("address-where-value", "&n"),
+    ("array-where-value", "arr"),
+    ("structure-where-value", "st"),
+    ("argument-of-wrong-type", "one(true)"),
+    ("undefined-in-argument", "one(nowhere_)"),
+    ("undefined-in-index", "arr[nowhere_]"),
+    ("missing-member-in-index", "arr[st.nomember_]"),
+    ("skipped-declaration", "late_"),
+    ("cast-of-undefined", "(nowhere_ as i32)"),
+    ("bitcast-of-structure", "cast st"),
+    ("undefined-structure-literal", "Nostruct_ { a: 1 }.a"),
+    ("wrong-suffix", "1i64"),
+]
+
+CONTEXTS_I32 = [
+    ("initializer", "var y: i32 = {E};"),
+    ("untyped-initializer", "var y = {E};"),
+    ("negated", "var y: i32 = -{E};"),
+    ("complemented", "var y: i32 = !{E};"),
+    ("parenthesized", "var y: i32 = ({E});"),
+    ("negated-parenthesized", "var y: i32 = -({E});"),
+    ("left-operand", "var y: i32 = {E} + 1;"),
+    ("right-operand", "var y: i32 = 1 + {E};"),
+    ("negated-operand", "var y: i32 = 2 * -{E};"),
+    ("shift-amount", "var y: i32 = n << {E};"),
+    ("cast", "var y: i64 = {E} as i64;"),
+    ("negated-cast", "var y: i64 = -{E} as i64;"),
+    ("index", "var y: i32 = arr[{E} as usize];"),
+    ("argument", "var y: i32 = one({E});"),
+    ("negated-argument", "var y: i32 = one(-{E});"),
+    ("statement-call-argument", "consume({E});"),
+    ("array-element", "var y: [2]i32 = [{E}, 2];"),
+    ("negated-array-element", "var y = [1, -{E}];"),
+    ("structure-member", "var y = S { a: {E} };"),
+    ("negated-structure-member", "var y = S { a: -{E} };"),
+    ("assignment", "n = {E};"),
+    ("negated-assignment", "n = -{E};"),
+    ("element-assignment", "arr[0] = {E};"),
+    ("member-assignment", "st.a = {E};"),
+    ("index-of-assignment", "arr[{E} as usize] = 1;"),
+    ("comparison-left", "if {E} == 1\n\t{\n\t\tn = 2;\n\t}"),
+    ("comparison-right", "if 1 < {E}\n\t{\n\t\tn = 2;\n\t}"),
+    ("negated-comparison", "if -{E} == 1\n\t{\n\t\tn = 2;\n\t}"),
+    ("return-value", "return: {E}"),
+    ("negated-return-value", "return: -{E}"),
+    ("print-argument", 'print!("{}", {E});'),
+    ("negated-print-argument", 'print!("{}", -{E});'),
+    ("format-argument", 'var y = format!("a", {E});'),
+    ("length-index", "var y: usize = |arrs[{E} as usize]|;"),
+    ("constant", None),
+]
+
+
+def fault_context_matrix():
+    """programs whose ONLY fault sits in one expression position: (tag, source).  Each must be rejected with a diagnostic."""
+    out = []
+    for fname, fexpr in FAULTS_I32:
+        for cname, ctx in CONTEXTS_I32:
+            if ctx is None:
+                if fname in ("skipped-declaration",) or "st" in fexpr.split(".")[0:1] or fexpr in ("arr", "st", "&n", "|n|", "n.a", "n[0]", "(1u8 + n)", "cast st"):
+                    continue
+                body = ""
+                head = "const K: i32 = -%s;\n" % fexpr
+            else:
+                head = ""
+                body = "\t" + ctx.replace("{E}", fexpr) + "\n"
+            is_return = ctx is not None and ctx.startswith("return:")
+            src = ("struct S\n{\n\ta: i32,\n}\n" + head +
+                   "fn one(a: i32) -> i32\n{\n\treturn: a\n}\nfn nothing()\n{\n}\nfn consume(a: i32)\n{\n}\n"
+                   "fn host() -> i32\n{\n\tvar n: i32 = 1;\n\tvar arr: [2]i32 = [1, 2];\n\tvar arrs: [2][2]i32 = [[1, 2], [3, 4]];\n"
+                   "\tvar st = S { a: 1 };\n\tgoto after_late;\n\tvar late_: i32 = 3;\n\tafter_late:\n"
+                   + ("" if is_return else body) + ("\t" + ctx.replace("{E}", fexpr) + "\n" if is_return else "\treturn: n\n")
+                   + "}\nfn main()\n{\n}\n")
+            out.append(("%s/%s" % (fname, cname), src))
+    return out
+
+
+STATEMENT_FAULTS = [
+    "n[0] = 1;", "n.a = 1;", "st.nomember_ = 1;", "arr[0][1] = 1;", "st.a[0] = 1;", "st.a.b = 1;", "nowhere_[0] = 1;",
+    "nowhere_.a = 1;", "late_ = 1;", "arr.a = 1;", "arr = 1;", "st = 1;", "n = arr;", "&n = 1;", "&&n = 1;", "n = &&n;", "n = &n;",
+    "n[0] = n[1];", "n.a = n.b;", "st.a = st.a[0];", "arr[0] = arr[0][0];", "arr[n[0] as usize] = 1;", "arrs[0] = 1;", "arrs[0][0][0] = 1;",
+    "var e_;", "var e_;\n\tvar f_: i32 = e_.s;", "var e_;\n\te_.s = 2;", "var e_;\n\tvar f_: i32 = e_.s;\n\te_.s = 2;",
+    "var e_;\n\tvar f_ = e_ + S { a: 1 };", "var e_;\n\te_.a = n;", "var e_ = 33;\n\tvar f_: i32 = e_.x;",
+    "var e_;\n\tvar f_: i32 = e_[0];", "var e_;\n\te_[0] = 1;", "var e_;\n\tconsume(e_);\n\te_ = arr;",
+    "var e_ = 0x10;\n\tvar p_: &u32 = e_;", "var e_;\n\te_ = e_;", "var e_;\n\tvar f_ = e_;", "var e_ = nothing();",
+    "var e_: [2]i32 = [nothing(), 1];", "var e_;\n\tvar f_: i32 = |e_|;", "var e_;\n\tvar f_ = &e_;", "var e_;\n\tvar f_: &i32 = &e_;\n\te_ = arr;",
+    "var e_;\n\tvar f_: i32 = e_.s.t;", "var e_;\n\tvar f_: i32 = e_[0].s;", "var e_ = S { a: 1 }.a.b;", "var e_;\n\tif e_ == 1\n\t{\n\t\tn = 2;\n\t}",
+    "var e_;\n\tprint!(\"{}\", e_);", "var e_;\n\tvar f_ = -e_;", "var e_;\n\tvar f_ = e_ as i64;", "var e_;\n\tvar f_ = cast e_;",
+    "var e_: i32 = cast st;", "var e_ = cast n;", "var e_: S = cast n;",
+]
+
+CONSTANT_FAULTS = [
+    "const K: S = S { a: K };", "const K: S = S { a: K.a };", "const K: [1]i32 = [K];", "const K: [2]i32 = [1, K[0]];",
+    "const K: i32 = K;", "const K: i32 = -K;", "const K: i32 = K + 1;", "const K: i32 = one(1);", "const K: i32 = L;\nconst L: i32 = K;",
+    "const K: S = S { a: L };\nconst L: i32 = K.a;", "const K: S = S { a: 1 };\nconst L: S = S { a: L.a + K.a };",
+    "const K: [K]i32 = [1];", "const K: usize = |L|;\nconst L: [K]i32 = [1];", "const K: i32 = nowhere_;", "const K: S = S { a: nowhere_ };",
+    "const K: S = S { nomember_: 1 };", "const K: Nostruct_ = Nostruct_ { a: 1 };", "const K: i32 = true;", "const K: [2]i32 = [1, true];",
+    "const K: i32 = 1 as S;", "const K: i32 = cast 1u8;", "const K = 1;", "const K: i32;", "const K: &i32 = &L;\nconst L: i32 = 1;",
+]
+
+
+def statement_fault_programs():
+    """programs with one faulty statement (assignees, untyped variables) or one faulty constant: (tag, source)"""
+    out = []
+    for st in STATEMENT_FAULTS:
+        out.append(("statement:" + st.replace("\n\t", " "),
+                    "struct S\n{\n\ta: i32,\n}\nfn one(a: i32) -> i32\n{\n\treturn: a\n}\nfn nothing()\n{\n}\nfn consume(a: i32)\n{\n}\n"
+                    "fn host() -> i32\n{\n\tvar n: i32 = 1;\n\tvar arr: [2]i32 = [1, 2];\n\tvar arrs: [2][2]i32 = [[1, 2], [3, 4]];\n"
+                    "\tvar st = S { a: 1 };\n\tgoto after_late;\n\tvar late_: i32 = 3;\n\tafter_late:\n\t" + st + "\n\treturn: n\n}\nfn main()\n{\n}\n"))
+    for k in CONSTANT_FAULTS:
+        for use in ("", "fn main() -> i32\n{\n\tvar u_ = K;\n\treturn: 0\n}\n"):
+            out.append(("constant:" + k.replace("\n", " "), "struct S\n{\n\ta: i32,\n}\nfn one(a: i32) -> i32\n{\n\treturn: a\n}\n" + k + "\n" + use))
+    return out
